@@ -873,10 +873,13 @@ func runC13(c *Ctx) {
 				}
 			}
 			if r.Chance(1, 3) {
-				// the round starts by loading a snapshot made elsewhere (LoadPolicies on the
-				// reused authorizer); only at the start of a round: LoadPolicies re-bases the
-				// authorizer's symbol table, which is specified for a clean authorizer only
-				ops = append([]AuthOp{{K: "load", Sub: g.authContent()}}, ops...)
+				// a snapshot made elsewhere is loaded (LoadPolicies on the reused authorizer), at
+				// the start of the round or in the middle of its content
+				at := 0
+				if r.Chance(1, 2) {
+					at = r.Intn(len(ops) + 1)
+				}
+				ops = append(append(append([]AuthOp{}, ops[:at]...), AuthOp{K: "load", Sub: g.authContent()}), ops[at:]...)
 				c.Count("round-with-load")
 			}
 			if r.Chance(4, 5) {
